@@ -218,7 +218,7 @@ def rule_quadrature(chk, prog):
   ok = v.k == 'tuple' and len(v.a) == 2 and match.is_ext_call(v.a[0], 'linspace')
   if chk.check(ok, rule, f'{site}: returns (nodes, weight)', sym.show(v), loc):
     ls = v.a[0]
-    okr = (alg.equal(C.conv(ls.a[1][0]), 0) and alg.equal(C.conv(ls.a[1][1]), 2 * sp.pi) and ls.a[1][2] == S(f.param_names()[0]) and dict(ls.a[2]).get('endpoint') == sym.FALSE)
+    okr = (alg.equal(C.conv(ls.a[1][0]), 0) and alg.equal(C.conv(ls.a[1][1]), 2 * sp.pi) and ls.a[1][2] == S(f.param_names()[0]) and util.call_kwargs(ls).get('endpoint') == sym.FALSE)
     chk.check(okr, rule, f'{site}: longitudes are equispaced on [0, 2π) (endpoint excluded)', sym.show(ls), loc, 'linspace(0, 2*pi, nodes, endpoint=False)', sym.show(ls))
     chk.check(alg.equal(C.conv(v.a[1]), 2 * sp.pi / nn), rule, f'{site}: trapezoid weight 2π/nodes', sym.show(v.a[1]), loc, '2*pi/nodes', sym.show(v.a[1]))
   ev3 = sym.Evaluator(prog, sym.Options(std_opaque=False))
@@ -366,7 +366,7 @@ def stripped_unstack(t):
 
 # ------------------------------------------------------------- basis data
 def pad_is_zero(t):
-  return match.is_ext_call(t, 'pad') and not any(k in dict(t.a[2]) for k in ('mode', 'constant_values')) and len(t.a[1]) == 2
+  return match.is_ext_call(t, 'pad') and not any(k in util.call_kwargs(t) for k in ('mode', 'constant_values')) and len(t.a[1]) == 2
 
 
 def rule_basis(chk, prog):
@@ -409,7 +409,7 @@ def rule_basis(chk, prog):
     chk.check(okf, rule, f'{site}: f = {builder}(wavenumbers=longitude_wavenumbers, nodes=longitude_nodes)', sym.show(bs[0])[:160] if bs else 'none', loc)
     if cname == 'RealSphericalHarmonics':
       okr = (pb.k == 'sub' and pb.a[1] == Term('slice', sym.const(1), sym.NONE, sym.NONE) and match.is_ext_call(pb.a[0], 'repeat') and pb.a[0].a[1][1] == sym.const(2)
-             and dict(pb.a[0].a[2]).get('axis') == sym.const(0))
+             and util.call_kwargs(pb.a[0]).get('axis') == sym.const(0))
       chk.check(okr, rule, f'{site}: each order m>0 of p is duplicated for its cos and sin column and m=0 kept once (np.repeat(p, 2, axis=0)[1:])', sym.show(pb)[:120], loc)
     else:
       pads = [t for t in (fb.a[1] if fb.k == 'phi' else fb, fb.a[2] if fb.k == 'phi' else fb, pb)]
@@ -428,7 +428,7 @@ def rule_basis(chk, prog):
         chk.check(pw == want_p, rule, f'{site}: p is padded at the tail by (modal_pad_x // 2, nodal_pad_y, modal_pad_y) — one Legendre block per ± pair', sym.show(pw), loc, sym.show(want_p), sym.show(pw))
         chk.check(f_un.a[1][1] == want_f, rule, f'{site}: f is padded at the tail by (nodal_pad_x, modal_pad_x)', sym.show(f_un.a[1][1]), loc, sym.show(want_f), sym.show(f_un.a[1][1]))
       oks = (fb.k == 'phi' and fb.a[0].k == 'attr' and fb.a[0].a[1] == 'stacked_fourier_transforms' and match.is_ext_call(f_st, 'reshape') and f_st.a[1][0] == f_un
-             and dict(f_st.a[2]).get('order') == sym.const('F'))
+             and util.call_kwargs(f_st).get('order') == sym.const('F'))
       if chk.check(oks, 'C01.2c-memory-order', f'{site}: the stacked Fourier matrix is the Fortran-order reshape of the same padded matrix', sym.show(f_st)[:160] if f_st is not None else 'no stacked branch', loc,
                    "np.reshape(f, (-1, 2, f.shape[-1] // 2), order='F')", sym.show(f_st)[:160] if f_st is not None else ''):
         shp = f_st.a[1][1]
@@ -440,7 +440,7 @@ def rule_basis(chk, prog):
     f = prog.func(f'{SH}.{fname}')
     v, _, _ = ev2.run(f)
     rs = list({t for t in sym.walk(v) if match.is_ext_call(t, 'reshape')})
-    ok = len(rs) == 1 and dict(rs[0].a[2]).get('order') == sym.const('F') and rs[0].a[1][0] == S(f.param_names()[0])
+    ok = len(rs) == 1 and util.call_kwargs(rs[0]).get('order') == sym.const('F') and rs[0].a[1][0] == S(f.param_names()[0])
     chk.check(ok, 'C01.2c-memory-order', f'{SH}.{fname}: {desc} is a Fortran-order reshape of its input (cos/sin pairs ↔ sign index)', sym.show(rs[0])[:160] if rs else sym.show(v)[:120], (f.file, f.lineno),
               "jnp.reshape(x, shape, order='F')", sym.show(rs[0])[:160] if rs else '')
     if ok:
